@@ -1,6 +1,7 @@
 package main
 
 import (
+	"encoding/json"
 	"flag"
 	"fmt"
 	"os"
@@ -37,6 +38,7 @@ func check(args []string) int {
 	verbose := fs.Bool("v", false, "list every obligation")
 	noEvid := fs.Bool("no-evidence", false, "do not write the evidence file")
 	outDir := fs.String("out", "", "output directory for SMT files")
+	replayFile := fs.String("replay", "", "replay file written by an earlier run: re-decide only the obligation it names on the current tree (and re-run its driver)")
 	var prop string
 	if len(args) > 0 && len(args[0]) > 0 && args[0][0] != '-' {
 		prop = args[0]
@@ -52,7 +54,45 @@ func check(args []string) int {
 	}
 	seed, _ := strconv.Atoi(os.Getenv("VERIF_SEED"))
 	o := gov.CheckOpts{Prop: prop, Tier: *tier, RepoDir: *repo, VerifDir: *verif, Seed: seed, Only: *only, OutDir: *outDir}
+	replayObl := ""
+	if *replayFile != "" {
+		b, err := os.ReadFile(*replayFile)
+		if err != nil {
+			fmt.Fprintln(os.Stderr, "gov:", err)
+			return 2
+		}
+		var m struct {
+			Obligation string `json:"obligation"`
+		}
+		if json.Unmarshal(b, &m) != nil || m.Obligation == "" {
+			fmt.Fprintln(os.Stderr, "gov: not a replay file:", *replayFile)
+			return 2
+		}
+		replayObl = m.Obligation
+		o.NoEvid = true
+		*noEvid = true
+		o.OutDir = filepath.Join(*verif, "out", prop+"-replay")
+		fmt.Printf("replaying obligation %s on the current tree\n", replayObl)
+	}
 	rep, err := gov.RunCheck(o)
+	if err == nil && replayObl != "" {
+		var keep []gov.Violation
+		for _, v := range rep.Violations {
+			if v.Obligation == replayObl {
+				keep = append(keep, v)
+			}
+		}
+		found := false
+		for _, r := range rep.Results {
+			if r.Obl.Name == replayObl {
+				found = true
+			}
+		}
+		if !found {
+			keep = append(keep, gov.Violation{Obligation: replayObl, Reason: "the obligation is no longer generated from the current tree (contract or function missing)"})
+		}
+		rep.Violations = keep
+	}
 	if err != nil {
 		fmt.Fprintln(os.Stderr, "gov: broken machinery:", err)
 		return 2
